@@ -14,6 +14,7 @@ import Lattigo.Model.Bootstrap
         → `name/prot/levelQ/levelP;…` (prot: letters r,d,s) or `panic`
   * `layout res= s2c= c2s= cosd= sinc= deg= k= da= inv= rsv= logp=`
         → `qCount,pCount,s2cLevelQ,mod1LevelQ,c2sLevelQ,mod1Depth,checks`
+  * `needed res= s2c= c2s= m1= rsv= logp=` → `name/minLevelQ/levelP;…` per key kind (`*` = any LevelP)
   * `stages res= s2c= c2s= m1= rsv=` → levels after ModUp, CoeffsToSlots, EvalMod, SlotsToCoeffs
   * `output res= s2c= c2s= m1= rsv= iter= logscale=` → `level,scale`
   * `probe …` → `holds`
@@ -107,6 +108,18 @@ def handle (toks : List String) : String :=
       | some s => showVec [s.qCount, s.pCount, s.s2cLevelQ, s.mod1LevelQ, s.c2sLevelQ, m1, if s.newEvaluatorChecks then 1 else 0]
       | none => badOp
     | _, _, _, _, _, _ => badOp
+  | "needed" :: rest =>
+    match natArg rest "m1" with
+    | some m1 =>
+      match schedLit? rest m1 with
+      | some s =>
+        let names := ["EvkN1ToN2", "EvkN2ToN1", "EvkRealToCmplx", "EvkCmplxToReal", "EvkDenseToSparse",
+                      "EvkSparseToDense", "rlk", "gk"]
+        ";".intercalate (names.map fun n =>
+          n ++ "/" ++ toString (neededLevelQ s n) ++ "/" ++
+            (match neededLevelP s n with | some lp => toString lp | none => "*"))
+      | none => badOp
+    | none => badOp
   | "stages" :: rest =>
     match natArg rest "m1" with
     | some m1 =>
